@@ -836,11 +836,29 @@ func runCloudEvents(rc *RunCtx) {
 				}
 			}
 			e := &el.Event{Type: el.EventType(typ), CreatedAt: created, Payload: payload, Formatted: map[string][]byte{}}
+			var stale []byte
+			if tp.Choose(5, "stale-document") == 0 {
+				stale = []byte("{\"id\":\"stale\",\"source\":\"elsewhere\",\"specversion\":\"1.0\",\"type\":\"stale\"}\n")
+				// the slot is taken already (an earlier formatter of the pipeline, another configuration, the
+				// signer rotated away since): this node is the last writer, its document replaces it
+				e.Formatted[storeKey] = stale
+				simrt.Probe("ce.slot-preoccupied")
+			}
 			signBefore := signN
 			keyInForce := key // the signer installed when this event is formatted
 			out, err := ff.Process(context.Background(), e)
 			val, stored := e.Format(storeKey)
+			if stored && stale != nil && bytes.Equal(val, stale) {
+				stored = false // what was there before: this call stored nothing
+			}
 			descs = append(descs, fmt.Sprintf("type=%s payload=%d -> err=%v", typ, kind, err != nil))
+			if validCfg && kind != 4 && typ != "" && !timeRepresentable(created) {
+				// a creation time without an RFC 3339 form cannot be written into the document
+				if err == nil || out != nil || stored {
+					rc.Failf("C18.time", "unrepresentable-accepted", "creation time %v has no RFC 3339 form, yet the event was formatted: stored=%v out=%v err=%v", created, stored, out != nil, err)
+				}
+				continue
+			}
 			if !validCfg {
 				if err == nil || out != nil {
 					rc.Failf("C18.invalid-config-accepted", "", "invalid configuration (source mode %d, schema mode %d, format %q) accepted", srcMode, schemaMode, ff.Format)
